@@ -80,7 +80,9 @@ class LambdaRecInstruction(MichelsonInstruction, prim='LAMBDA_REC', args_len=3):
     def execute(cls, stack: MichelsonStack, stdout: List[str], context: AbstractContext):
         lambda_type = LambdaType.create_type(args=cls.args[:2])
 
-        inner = LambdaRecInstruction.create_type(args=cls.args.copy())
+        # the lambda's own code must not depend on the annotations of its declared types
+        arg_types = [MichelsonType.match(strip_type_annots(arg.as_micheline_expr())) for arg in cls.args[:2]]
+        inner = LambdaRecInstruction.create_type(args=[*arg_types, cls.args[2]])
         inner.depth = cls.depth + 1  # type: ignore
         if cls.depth + 1 > 256:
             raise MichelsonRuntimeError("Maximum recursive depth reached")
